@@ -329,6 +329,23 @@ def gen_program(rng, max_ops=10):
             calls.append(["zone", rng.choice(ZONES)])
         rng.shuffle(calls)
         ents.append({"kind": "op", "cell": list(cell), "perm": perm, "pts": pts, "calls": calls})
+    dups = []
+    if rng.random() < 0.3:
+        # a duplicate made with Operation.copy(), moved clear of the others, THEN given patches / projections of its own:
+        # it carries what the original had when it was copied, and what is declared on it afterwards stays on it
+        cands = [k for k, e in enumerate(ents) if {c[1] for c in e["calls"] if c[0] == "chop"} == {0, 1, 2}]
+        if cands:
+            k = rng.choice(cands)
+            src = ents[k]
+            shift = [0.0, 0.0, 40.0]
+            own = []
+            for sd in rng.sample(SIDES, rng.randint(1, 3)):
+                own.append(["set_patch", [sd], rng.choice(PATCHES)])
+            if rng.random() < 0.4:
+                own.append(["project_side", rng.choice(SIDES), rng.choice(LABELS), False, rng.random() < 0.4])
+            dups.append({"kind": "op", "cell": list(src["cell"]), "perm": src["perm"], "dup_of": k, "shift": shift,
+                         "pts": [[p[j] + shift[j] for j in range(3)] for p in src["pts"]],
+                         "calls": [json.loads(json.dumps(c)) for c in src["calls"]] + own, "own_calls": own})
     prog = {"entities": ents, "merged": [], "default": None, "modify_pre": [], "modify_post": [], "geometry": [],
             "settings": [], "deleted": [], "debug": rng.random() < 0.5}
     # face-merged neighbours
@@ -379,6 +396,10 @@ def gen_program(rng, max_ops=10):
         prog["settings"].append(["scale", None])
     if rng.random() < 0.3 and n > 1:
         prog["deleted"].append([rng.randrange(n), 0])
+    for d in dups:
+        # what the original carries when it is copied (everything declared on it above) + what the duplicate gets itself
+        d["calls"] = [json.loads(json.dumps(c)) for c in ents[d["dup_of"]]["calls"]] + d["own_calls"]
+    prog["entities"] += dups
     if rng.random() < 0.15:
         # the whole model far from the origin (plant / map coordinates): which corners are one vertex is a matter of the
         # absolute merge tolerance, whatever the size of the coordinates
@@ -498,6 +519,10 @@ def apply_op_calls(op, calls):
 
 def build_entity(e, built=()):
     cb = _cb()
+    if e["kind"] == "op" and e.get("dup_of") is not None:
+        op = built[e["dup_of"]].copy().translate(e["shift"])
+        apply_op_calls(op, e["own_calls"])
+        return op
     if e["kind"] == "op":
         op = cb.Loft(cb.Face(e["pts"][:4]), cb.Face(e["pts"][4:]))
         apply_op_calls(op, e["calls"])
